@@ -541,7 +541,7 @@ func buildScenarios() []*mc.Scenario {
 		concurrentScenario("conc-same-directory", all,
 			cOpenCreate("open(d1/n)", selD1, "n"),
 			cMkdir("mkdir(d1/n)", selD1, "n"),
-			cRemove("remove(d1/a)", selD1, "a", true, true),
+			cRename("rename(d1/a->d1/n)", selD1, "a", selD1, "n"),
 			cLink("link(d1/a)", selD1, "a")),
 		// Recursive removal against calls entering the subtree.
 		concurrentScenario("conc-removeall-enter", p3,
